@@ -5,8 +5,8 @@ yaml-paths) the phase machine Args -> Validate -> (Load | Work)* -> Output -> Ex
 function; `Work` consumes an abstract library outcome, `Codes` is the exit-code table read off the
 main() functions, the delivery (file / stdin) is visible to the Load step alone.
   * MC_YCli: TLC explores every run over the finite outcome space, checks the exit-code statements
-    (get 0 <=> matched, diff 0 <=> same, validate 0 / 2 / 1, merge and set codes, paths), that a failing run
-    delivers no result document, delivery independence (the twin run with file and stdin exchanged ends in
+    (get 0 <=> matched, diff 0 <=> same, validate 0 / 2 / 1, merge and set codes, paths) both on the state and
+    on the events of the run, that a failing run delivers no result document, delivery independence (the twin run with file and stdin exchanged ends in
     the same state), determinism and progress, and emits the table (exit code per outcome class).
   * Binding S->C: the cases of the library-level models - MC_Query (C01) -> yaml-get and the unmatched
     yaml-set runs, MC_Edit (C03/C04/C09) -> yaml-set, MC_Merge (C05) -> yaml-merge and the document pairs of
@@ -58,18 +58,18 @@ def _doc_text(doc, fmt):
 
 
 def _fmts(doc, rng, quick, seed):
-    """Input formats to use for a document: YAML concretisation variant(s) and, where lossless, JSON."""
+    """Input formats to use for a document: a YAML concretisation variant and, where lossless, JSON.
+
+    quick: one format (JSON for about a third of the documents that allow it); thorough: YAML and JSON."""
     from harness import cliobs
-    out = [("yaml", s, p) for s, p in querycorpus.variant_of(doc, seed, quick)]
+    allv = querycorpus.variant_of(doc, seed, False)
     if not cliobs.jsonable(doc):
         # a flow-style root makes the tools answer in JSON, which cannot hold Sets, anchors or non-string keys
-        out = [f for f in out if f[1] == "block"] or [("yaml", "block", False)]
-    elif quick:
-        if rng.random() < 0.35:
-            out = [("json",)]
-    else:
-        out.append(("json",))
-    return out
+        allv = [v for v in allv if v[0] == "block"]
+        return [("yaml",) + rng.choice(allv)]
+    if quick:
+        return [("json",)] if rng.random() < 0.35 else [("yaml",) + rng.choice(allv)]
+    return [("yaml",) + rng.choice(allv), ("json",)]
 
 
 def _deliver(name, text, delivery, rng):
@@ -94,7 +94,7 @@ def get_specs(corpus, rng, count, quick, seed):
     for doc, c in picked:
         cls = "yperr" if c["err"] else ("matched" if c["n"] > 0 else "unmatched")
         info = bool(c["info"]) or cliobs.null_root(doc)
-        for fmt in _fmts(doc, rng, True, seed) if quick else _fmts(doc, rng, False, seed)[:2]:
+        for fmt in _fmts(doc, rng, quick, seed):
             suffix, text = _doc_text(doc, fmt)
             for delivery in ("file", "stdin"):
                 for notation in ("dot", "sl"):
@@ -224,20 +224,20 @@ def set_specs(hists, corpus, rng, count, quick, seed):
     for rec in _round_robin(groups, rng, n_model):
         st = rec["hist"][0]
         doc0 = rec["doc0"]
-        fmts = _fmts(doc0, rng, quick, seed)
-        for fmt in fmts[:1] if quick else fmts[:2]:
+        for fmt in _fmts(doc0, rng, quick, seed):
             suffix, text = _doc_text(doc0, fmt)
             for delivery in ("file", "stdin"):
                 for notation in ("dot", "sl"):
                     tail, files, stdin = _deliver("doc" + suffix, text, delivery, rng)
                     final, value, info = rec["final"], None, False
-                    if st["op"] != "delete" and not _in(doc0, st) and rng.random() < 0.2:
+                    if st["op"] != "delete" and st["v"] in SUBST and not _in(doc0, st) and rng.random() < 0.2:
                         # the same edit with another value: the model's result with that scalar in place
                         t, v = rng.choice(SUBST[st["v"]])
                         final = [dict(n, t=t, v=v) if (n["k"] == "s" and n["t"] == st["t"] and n["v"] == st["v"]) else n for n in final]
                         value = v
                         info = st["op"] == "set_opt"       # what a created path is padded with is not documented
                     ok = st["out"] == "ok"
+                    info = info or _dup_members(final)      # several members of one Set made equal: what is left is not documented
                     specs.append({
                         "tool": "set", "argv": _set_argv(st, st[notation], rng, value) + tail, "files": files, "stdin": stdin,
                         "o": o_of(must=st["op"] != "set_opt"), "exp": {"k": "" if info else ("changed" if ok else st["out"]), "n": 0},
@@ -286,6 +286,15 @@ def set_specs(hists, corpus, rng, count, quick, seed):
                     "want": {"final": None, "doc0": doc0},
                 })
     return specs
+
+
+def _dup_members(doc):
+    for n in doc:
+        if n["k"] == "set":
+            vals = [(doc[c - 1]["t"], doc[c - 1]["v"]) for c in n["kids"]]
+            if len(set(vals)) != len(vals):
+                return True
+    return False
 
 
 def _in(doc, st):
@@ -392,6 +401,7 @@ DIFF_OPTS = ([], [], ["--same"], ["-s"], ["--onlysame"], ["-o"], ["--quiet"], ["
 
 
 def diff_specs(recs, rng, count, quick, seed):
+    from harness import absdoc
     pairs = {}
     for rec in recs:
         pairs.setdefault(rec["key"], (rec["l"], rec["r"]))
@@ -404,7 +414,7 @@ def diff_specs(recs, rng, count, quick, seed):
     # data-equal pairs: a document against itself (another spelling of it)
     docs = sorted({json.dumps(l) for l, _ in allp})
     rng.shuffle(docs)
-    chosen += [(json.loads(d), json.loads(d)) for d in docs[:max(1, int(count * 0.3) // 3)]]
+    chosen += [(json.loads(d), json.loads(d)) for d in (rng.choice(docs) for _ in range(max(1, int(count * 0.3) // 3)))]
     specs = []
     for l, r in chosen:
         fl = _fmts(l + r, rng, True, seed)[0]
@@ -422,9 +432,10 @@ def diff_specs(recs, rng, count, quick, seed):
                 stdin = files.pop("lhs" + ls)
                 names[0] = "-"
             quiet = "--quiet" in opts
+            equal = absdoc.plain_data(l) == absdoc.plain_data(r)
             specs.append({
                 "tool": "diff", "argv": opts + names, "files": files, "stdin": stdin,
-                "o": o_of(noise="quiet" if quiet else "default"), "exp": {"k": "", "n": 0}, "info": False,
+                "o": o_of(noise="quiet" if quiet else "default"), "exp": {"k": "same" if equal else "differs", "n": 0}, "info": False,
                 "cls": "%s-vs-%s" % (l[0]["k"], r[0]["k"]), "delivery": delivery,
                 "want": {"l": l, "r": r, "ltext": ltext, "rtext": rtext, "opts": opts},
             })
@@ -1028,38 +1039,50 @@ def _tlc_table(ctx):
         key = (row["tool"], row["must"], row["mode"], row["argsok"], row["valid"], min(row["badat"], 2), row["k"], row["badexpr"])
         table.setdefault(key, set()).add(row["code"])
     os.remove(f)
+    # the theorems are not vacuous: the design "the status of the last source wins" must be refuted
+    d = core.run_tlc(ctx, "MC_YCli", "MC_YCli_lastwins.cfg", env={"CASES_OUT": ctx.path("unused.cases")}, workers=2, timeout=600)
+    if d["violated"] != "InvRunHonest":
+        raise core.MachineryError("the deviating design MC_YCli_lastwins.cfg was not refuted by InvRunHonest (%s; see %s)" % (d["violated"], d["log"]))
     return table, r
 
 
-def _generators(ctx):
-    """The three library-level generator models, run side by side."""
-    jobs = [("q", "MC_Query", "MC_YCli_query_q.cfg" if ctx.quick else "MC_Query_q1.cfg"),
-            ("e", "MC_Edit", "MC_YCli_edit_q.cfg" if ctx.quick else "MC_YCli_edit_t.cfg"),
-            ("m", "MC_Merge", "MC_YCli_merge_q.cfg" if ctx.quick else "MC_Merge_q.cfg")]
-    res, errs = {}, []
+class _Generators:
+    """The three library-level generator models, run side by side in the background; need(tag) waits for one."""
 
-    def one(tag, module, cfg):
+    def __init__(self, ctx):
+        self.jobs = {"q": ("MC_Query", "MC_YCli_query_q.cfg" if ctx.quick else "MC_Query_q1.cfg"),
+                     "e": ("MC_Edit", "MC_YCli_edit_q.cfg" if ctx.quick else "MC_YCli_edit_t.cfg"),
+                     "m": ("MC_Merge", "MC_YCli_merge_q.cfg" if ctx.quick else "MC_Merge_q.cfg")}
+        self.res, self.errs, self.ths = {}, {}, {}
+        for tag, (module, cfg) in self.jobs.items():
+            self.ths[tag] = threading.Thread(target=self._one, args=(ctx, tag, module, cfg))
+            self.ths[tag].start()
+
+    def _one(self, ctx, tag, module, cfg):
         try:
             f = ctx.path(cfg + ".cases")
             r = core.run_tlc(ctx, module, cfg, env={"CASES_OUT": f}, workers=max(2, core.NCPU // 3), timeout=7200, heap="4g")
             if r["violated"]:
                 raise core.MachineryError("%s violated in %s (see %s)" % (r["violated"], cfg, r["log"]))
-            res[tag] = querycorpus.load_corpus(f) if tag == "q" else core.read_csv_json_lines(f)
+            # TLC's workers write the cases in no particular order: sort, so that a seed names the same runs every time
+            if tag == "q":
+                out = sorted(((d, sorted(cs, key=lambda c: (c["dot"], c["sl"]))) for d, cs in querycorpus.load_corpus(f)),
+                             key=lambda x: json.dumps(x[0], sort_keys=True))
+            elif tag == "e":
+                out = sorted((h for h in core.read_csv_json_lines(f) if len(h["hist"]) == 1), key=lambda h: json.dumps(h, sort_keys=True))
+            else:
+                out = sorted(core.read_csv_json_lines(f), key=lambda r: (r["key"], json.dumps(r["group"], sort_keys=True)))
             os.remove(f)
-        except Exception as ex:      # noqa: BLE001
-            errs.append(ex)
-    ths = [threading.Thread(target=one, args=j) for j in jobs]
-    for t in ths:
-        t.start()
-    for t in ths:
-        t.join()
-    if errs:
-        raise errs[0]
-    # TLC's workers write the cases in no particular order: sort, so that a seed names the same runs every time
-    res["q"] = sorted(((d, sorted(cs, key=lambda c: (c["dot"], c["sl"]))) for d, cs in res["q"]), key=lambda x: json.dumps(x[0], sort_keys=True))
-    res["e"] = sorted((h for h in res["e"] if len(h["hist"]) == 1), key=lambda h: json.dumps(h, sort_keys=True))
-    res["m"] = sorted(res["m"], key=lambda r: (r["key"], json.dumps(r["group"], sort_keys=True)))
-    return res
+            self.res[tag] = out
+        except BaseException as ex:      # noqa: BLE001 - re-raised by need()
+            self.errs[tag] = ex
+
+    def need(self, *tags):
+        for tag in tags:
+            self.ths[tag].join()
+            if tag in self.errs:
+                raise self.errs[tag]
+        return self.res
 
 
 def _validate_traces(ctx, records, name):
@@ -1138,9 +1161,17 @@ def _flush(ctx, pending, table, tot, accepted, rs):
     del pending[:]
 
 
+NEEDS = {"get": "q", "set": "qe", "validate": "q", "paths": "qe", "merge": "m", "diff": "m"}
+
+
 def run(ctx):
-    table, _ = _tlc_table(ctx)
-    gen = _generators(ctx)
+    gens = _Generators(ctx)
+    try:
+        table, _ = _tlc_table(ctx)
+    except BaseException:
+        for t in gens.ths.values():
+            t.join()
+        raise
     per = 2000 if ctx.quick else 30000
     nsub = 60 if ctx.quick else 500
     _SCRATCH[0] = ctx.path("runs")
@@ -1152,12 +1183,13 @@ def run(ctx):
     accepted = []                 # a few accepted records per batch, for the self-test
     pending = []                  # (spec, result) pairs waiting for trace validation
     sample = None
-    batches = [(t, None) for t in TOOLS] + [("unreadable", None)]
-    for bi, (tool, _) in enumerate(batches):
+    order = ("get", "set", "validate", "paths", "unreadable", "merge", "diff")      # (the merge corpus arrives last)
+    for tool in order:
         if tool == "unreadable":
             specs = unreadable_specs(random.Random(ctx.seed + 5), ctx.quick)
         else:
-            specs, dropped = _build(tool, gen, random.Random(ctx.seed * 1000003 + bi), per, ctx)
+            gen = gens.need(*NEEDS[tool])
+            specs, dropped = _build(tool, gen, random.Random(ctx.seed * 1000003 + TOOLS.index(tool)), per, ctx)
             tot["dropped"] += dropped
         results = {}
         for r in querycorpus.pmap(_work, [(i, s, "inproc", None) for i, s in enumerate(specs)], chunk=40):
@@ -1259,6 +1291,7 @@ def run(ctx):
         "traces_validated_against_impl": tot["records"], "traces_rejected": tot["rejected"],
         "model_outcome_vs_exit_mismatches": tot["want"],
         "outcome_classes_outside_emitted_table": tot["uncovered"], "table_rows": sum(len(v) for v in table.values()),
+        "deviating_designs_refuted": ["last-source-wins (Sticky = FALSE) violates InvRunHonest"],
         "binding_selftest": {"corrupted_records": len(corrupt), "rejected": len(corrupt) - len(missed),
                              "fields": ["exit code", "stdout lines / result document", "delivery", "library outcome", "missing phase"]},
         "model_drift": sum(st["info_mismatch"] for st in stats.values()),
